@@ -696,6 +696,7 @@ class Engine:
                         self.fdef, note=cls, name='%s/must-raise:%s' % (self.fn_short, cls))
         env2 = dict(self.entry_env)
         env2['result'] = value
+        self.final_env = dict(self.st.env)
         ens = list(contract.get('ensures', [])) + list(case.get('ensures', []))
         using = case.get('ensures_using', contract.get('ensures_using'))
         for k, e in enumerate(ens):
